@@ -6,13 +6,16 @@
 cd "$(dirname "$(dirname "$(readlink -f "$0")")")"
 SEED=${1:-1}
 [ "${2:-}" = nocorpus ] && export PVVERIF_NO_CORPUS=1
+# ONLY=<glob> restricts the run to matching seed names / reverted fixes, e.g. ONLY='*-[IJKL]'
 for s in seeded/*/; do
   n=$(basename $s); ID=${n%%-*}
+  case "$n" in ${ONLY:-*}) ;; *) continue;; esac
   RES=$(tools/mutant_run.sh $s/patch.diff $ID quick $SEED | tail -1)
   case "$RES" in *exit=1*) echo "$n $ID caught";; *exit=0*) echo "$n $ID MISSED";; *) echo "$n $ID ?? $RES";; esac
 done
 declare -A REV=( [D2]=C08 [D3]=C08 [D4]=C08 [D5]=C03 [D6]=C03 [D8]=C10 [D9]=C16 [D10]=C07 [D11]=C07 [D12a]=C18 [D12b]=C18 [D12c]=C18 [D13]=C12 )
 for d in D2 D3 D4 D5 D6 D8 D9 D10 D11 D12a D12b D12c D13; do
+  case "$d" in ${ONLY:-*}) ;; *) continue;; esac
   RES=$(tools/mutant_run.sh tools/mutants/revert_$d.diff ${REV[$d]} quick $SEED | tail -1)
   case "$RES" in *exit=1*) echo "revert_$d ${REV[$d]} caught";; *) echo "revert_$d ${REV[$d]} MISSED ($RES)";; esac
 done
